@@ -83,6 +83,16 @@ class Escape:
                 if isinstance(st, ast.Assert):
                     sites.append((handled, "fail", Failure(q, st, "AssertionError", "assert", st.test)))
                     nonzero = nonzero | _positive_facts(st.test)
+                # a local bound to a non-zero expression is non-zero until it is rebound
+                if isinstance(st, (ast.Assign, ast.AnnAssign, ast.AugAssign)):
+                    tgts = st.targets if isinstance(st, ast.Assign) else [st.target]
+                    for tg in tgts:
+                        for nm in [x for x in ast.walk(tg) if isinstance(x, ast.Name)]:
+                            nonzero = nonzero - {nm.id}
+                    if isinstance(st, (ast.Assign, ast.AnnAssign)) and len(tgts) == 1 and isinstance(tgts[0], ast.Name) \
+                            and st.value is not None and _is_nonzero(st.value, nonzero) \
+                            and not any(isinstance(x, ast.Name) and x.id == tgts[0].id for x in ast.walk(st.value)):
+                        nonzero = nonzero | {tgts[0].id}
                 if isinstance(st, ast.Assign) and len(st.targets) == 1 and isinstance(st.targets[0], ast.Name):
                     # clamp idiom  x = x if abs(x) > c else c   (c a non-zero constant)
                     v = st.value
@@ -91,8 +101,6 @@ class Escape:
                         tr, fa = _nonzero_facts(v.test)
                         if c is not None and c != 0 and _expr_key(v.body) in tr:
                             nonzero = nonzero | {_expr_key(st.targets[0])}
-                    elif _expr_key(st.targets[0]) in nonzero:
-                        nonzero = nonzero - {_expr_key(st.targets[0])}
                 if isinstance(st, ast.Raise):
                     exc = "?"
                     if st.exc is not None:
